@@ -231,7 +231,7 @@ def r4(cx):
         got = {tuple(sorted(x)) for x in reach}
         cx.ob("C06.R4", "match:polarity", got == want,
               "the catch acts exactly on (`on` is none) or (`on` equals the code); a non-matching catch does nothing%s" % (
-                  "" if got == want else " - but the revival is reachable under %s" % sorted(dict(x) for x in got)), revive.loc)
+                  "" if got == want else " - but the revival is reachable under %s" % sorted(str(dict(x)) for x in got)), revive.loc)
     # the catch steps scheduled are this catch's outputs
     sched = [c for c in h.calls() if c.q == T.Q_SCHED and any(g.root[0] == "discr" and g.root[1][0] == "param" and discr_variants(m, g) == {"Catch"} for g in guards_of(m, h, c.b, mode="alias"))]
     ok = False
